@@ -221,6 +221,11 @@ func authenticateOrigin(r *http.Request, originHosts []string) error {
 		return fmt.Errorf("failed to parse Origin header %q: %w", origin, err)
 	}
 
+	// An Origin that names no host must not compare equal to an empty Host.
+	if u.Host == "" {
+		return fmt.Errorf("request Origin %q is not a valid URL with a host", origin)
+	}
+
 	if strings.EqualFold(r.Host, u.Host) {
 		return nil
 	}
@@ -233,9 +238,6 @@ func authenticateOrigin(r *http.Request, originHosts []string) error {
 		if matched {
 			return nil
 		}
-	}
-	if u.Host == "" {
-		return fmt.Errorf("request Origin %q is not a valid URL with a host", origin)
 	}
 	return fmt.Errorf("request Origin %q is not authorized for Host %q", u.Host, r.Host)
 }
